@@ -1,12 +1,14 @@
 #!/bin/sh
 # usage: tools/seed_regress.sh [tier]   applies every confirmed seeded change in turn and runs its property's check
-cd /verif
+V=$(cd "$(dirname "$0")/.." && pwd)
+R="${VERIF_REPO:-/repo}"
+cd $V
 tier="${1:-quick}"
 for d in seeded/*/; do
   n=$(basename $d)
   id=$(echo $n | cut -d- -f1)
-  if ! git -C /repo apply --check /verif/$d/patch.diff 2>/dev/null; then echo "$n does-not-apply"; continue; fi
-  out=$(tools/try_patch.sh /verif/$d/patch.diff $id $tier 2>&1 | grep -v "^KNOWN-FINDING\|WARNING conda" | tail -3)
+  if ! git -C "$R" apply --check $V/$d/patch.diff 2>/dev/null; then echo "$n does-not-apply"; continue; fi
+  out=$(tools/try_patch.sh $V/$d/patch.diff $id $tier 2>&1 | grep -v "^KNOWN-FINDING\|WARNING conda" | tail -3)
   if echo "$out" | grep -q "^VIOLATION"; then
     if echo "$out" | grep -q "no-failing-input-found"; then echo "$n caught-without-input"; else echo "$n caught"; fi
   else echo "$n MISSED"; fi
